@@ -680,8 +680,8 @@ func (cs *c23Session) judge(w, rd *endpoint, completed bool, tShutdown time.Time
 
 func c23() {
 	r := vk.Start("C23", "exploration")
-	sessions := r.Pick(60, 5000)
-	perRound := 6
+	sessions := r.Pick(60, 1500)
+	perRound := r.Pick(6, 12)
 	procsChoices := []int{1, 2, 4, 8, 16}
 	rng := r.Rand("c23-sessions")
 	var mu sync.Mutex
